@@ -2,6 +2,8 @@
 // A-DISPATCH: results of dispatched analyses / optimisation of an operation as uninterpreted functions.
 pub uninterp spec fn op_optimized(op: Operation, flags: ReFlags) -> Operation;
 pub uninterp spec fn op_first_set(op: Operation, case_blind: bool, c: char) -> bool;
+pub uninterp spec fn op_matches_empty(op: Operation) -> u32;
+pub uninterp spec fn op_match_length(op: Operation) -> Option<usize>;
 
 impl Operation {
     #[verifier::external_body]
@@ -13,6 +15,15 @@ impl Operation {
     pub fn get_initial_character_class(&self, case_blind: bool) -> (r: CharacterClass)
         ensures forall|c: char| #![trigger r.0.has(c)] #![trigger op_first_set(*self, case_blind, c)] r.0.has(c) == op_first_set(*self, case_blind, c),
     { unimplemented!() }
+
+    #[verifier::external_body]
+    pub fn contains_capturing_expressions(&self) -> (r: bool) { unimplemented!() }
+    #[verifier::external_body]
+    pub fn matches_empty_string(&self) -> (r: u32) ensures r == op_matches_empty(*self), { unimplemented!() }
+    #[verifier::external_body]
+    pub fn get_match_length(&self) -> (r: Option<usize>) ensures r == op_match_length(*self), { unimplemented!() }
+    #[verifier::external_body]
+    pub fn get_minimum_match_length(&self) -> (r: usize) { unimplemented!() }
 
     // A-CLONE: #[derive(Clone)] is structural identity
     #[verifier::external_body]
